@@ -146,6 +146,12 @@ def scenarios(tier: str) -> list[Scenario]:
         + ([] if quick else [L('mode~v2'), X('mode.pickle'), W('html', 'mode~v2', 'o3'), L('mode', 'html')]),
         [set(), {'mode.pickle', 'mode~01.pickle', 'mode~v2.pickle', 'mode~v2~00.pickle'}], 2 if quick else 3, max_env=1,
         invariants=['FoundAreOwn']))
+    # a model name holding characters that file-name patterns treat specially: the files of "m[1]" are found and numbered
+    # like those of any other model
+    out.append(Scenario(
+        'name with brackets',
+        [W('pickle', 'm[1]', 'o1'), W('html', 'm[1]', 'o1'), L('m[1]'), R('m[1]')],
+        [set(), {'m[1].pickle', 'm[1]~00.pickle'}, {'m[1].pickle', 'm[1].html', 'm[1]~01.html'}], 3, max_env=1, invariants=['FoundAreOwn']))
     if not quick:
         # deeper histories on a small alphabet: reports and pickles with holes, 5 operations
         out.append(Scenario(
